@@ -891,6 +891,13 @@ func TestC08CasterBuffered(t *testing.T) {
 	rapid.Check(t, func(t *rapid.T) {
 		capacity := rapid.IntRange(1, 8).Draw(t, "cap")
 		rounds := rapid.IntRange(1, 4).Draw(t, "rounds")
+		// one case in sixteen: a very large audience (counts around and beyond 2^16, divisible by 8 or not); the
+		// channel has a little room to spare so that a copy too many shows up as a copy, not as a blocked Send
+		huge := 0
+		if rapid.IntRange(0, 15).Draw(t, "hugeAudience") == 0 {
+			huge = rapid.SampledFrom([]int{1000, 65535, 65536, 65537, 70001, 100003, 131073, 200000}).Draw(t, "audience")
+			capacity, rounds = huge+16, 1
+		}
 		var trace []string
 		trace = append(trace, fmt.Sprintf("cap=%d", capacity))
 		vkit.CaseStart(func() string { return strings.Join(trace, " ; ") })
@@ -901,6 +908,9 @@ func TestC08CasterBuffered(t *testing.T) {
 			racing := false
 			for r := 0; r < rounds; r++ {
 				reg := rapid.IntRange(0, capacity).Draw(t, "register")
+				if huge > 0 {
+					reg = huge
+				}
 				count := 0
 				for left := reg; left > 0; {
 					d := rapid.IntRange(1, left).Draw(t, "delta")
@@ -910,7 +920,7 @@ func TestC08CasterBuffered(t *testing.T) {
 					count += d
 					left -= d
 				}
-				dereg := rapid.IntRange(0, count).Draw(t, "deregBefore")
+				dereg := rapid.IntRange(0, min(count, 8)).Draw(t, "deregBefore")
 				for i := 0; i < dereg; i++ {
 					if got := x.Add(-1); got != count-1 {
 						vkit.Fail(t, "C08/add-count", "Add(-1) returned %d, expected %d\ncase: %v", got, count-1, trace)
